@@ -92,11 +92,23 @@ def r5_enumerate(sig, body):
             if m:
                 hit = ('rev', None, m.group(1), ' '.join(m.group(2).split()), True, kw, ob, cb)
                 break
+            m = re.match(r'for\s+(\w+)\s+in\s+\(\s*(.+?)\.\.(.+?)\)\s*\.rev\(\)\s*$', hdr, re.S)
+            if m:
+                hit = ('rangerev', m.group(1), ' '.join(m.group(2).split()), ' '.join(m.group(3).split()), True, kw, ob, cb)
+                break
         if not hit:
             break
         mode, iv, xv, vec, rev, kw, ob, cb = hit
         k = '__k%d' % n
         inner = body[ob + 1:cb]
+        if mode == 'rangerev':
+            # for X in (A..B).rev() { BODY }  ->  let mut k = B; while k > A { k -= 1; let X = k; BODY }
+            lo, hi = xv, vec
+            newtxt = ('let mut {k}: usize = {hi}; while {k} > {lo} {{ {k} -= 1; let {x} = {k};{inner}}}'
+                      .format(k=k, hi=hi, lo=lo, x=iv, inner=inner))
+            body = body[:kw] + newtxt + body[cb + 1:]
+            n += 1
+            continue
         ibind = ('let %s = %s; ' % (iv, k)) if iv else ''
         if rev:
             new = ('let mut {k}: usize = {v}.len(); while {k} > 0 {{ {k} -= 1; {ib}let {x} = &{v}[{k}];{inner}}}'
